@@ -182,6 +182,8 @@ OutputFormula(P, m, st, e, roots2) ==
   LET S == Scratch(P, roots2, m.res0)
       own == Own(P, m, "C01")
   IN IF m.midChange THEN {}      \* tasks made consistent before the change legitimately keep their results for this session
+     ELSE IF m.sessBU /\ m.changed # {} THEN {}   \* the bottom-up build of this session was not told every change (e.g. it was
+                                                  \* reported to an earlier build that aborted): tasks it trusted stay trusted
      ELSE IF S.status = "ok"
      THEN V(e.o = S.out[e.t], <<own, "output">>)
           \cup V(\A r \in 1..P.nr : S.wtr[r] = 0 \/ st.res[r] = S.res[r], <<own, "written_content">>)
